@@ -14,9 +14,9 @@ import (
 	"sync"
 	"time"
 
-	"k8s.io/client-go/kubernetes/fake"
 	corev1 "k8s.io/api/core/v1"
 	metav1 "k8s.io/apimachinery/pkg/apis/meta/v1"
+	"k8s.io/client-go/kubernetes/fake"
 	"sigs.k8s.io/yaml"
 
 	"helm.sh/helm/v4/pkg/action"
@@ -99,18 +99,31 @@ type HFault struct {
 	Nth  int    `json:"nth"` // the Nth (0-based) watch of this hook within the operation fails
 }
 
+// Intruder (C07, optional): another actor creates Obj in the middle of the operation - after the
+// Nth GET of its key that was answered 404 (When "get404") or just before the first POST of its
+// key (When "post").
+type Intruder struct {
+	When string `json:"when"`
+	Nth  int    `json:"nth,omitempty"`
+	Obj  Res    `json:"obj"`
+}
+
 type Op struct {
-	Kind     string  `json:"op"` // install upgrade rollback uninstall
-	Flags    Flags   `json:"flags"`
-	ChartID  int     `json:"chart_id,omitempty"`
-	ValsID   int     `json:"vals_id,omitempty"`
-	Manifest []Res   `json:"manifest,omitempty"` // chart content (unordered: Helm orders it)
-	Hooks    []Hook  `json:"hooks,omitempty"`
-	WFail    *int    `json:"wfail,omitempty"`
-	Crash    *int    `json:"crash,omitempty"`
-	KFault   *KFault `json:"kfault,omitempty"`
-	HFault   *HFault `json:"hfault,omitempty"`
-	WaitFail bool    `json:"waitfail,omitempty"`
+	Kind     string    `json:"op"` // install upgrade rollback uninstall
+	Flags    Flags     `json:"flags"`
+	ChartID  int       `json:"chart_id,omitempty"`
+	ValsID   int       `json:"vals_id,omitempty"`
+	Manifest []Res     `json:"manifest,omitempty"` // chart content (unordered: Helm orders it)
+	Hooks    []Hook    `json:"hooks,omitempty"`
+	WFail    *int      `json:"wfail,omitempty"`
+	Crash    *int      `json:"crash,omitempty"`
+	KFault   *KFault   `json:"kfault,omitempty"`
+	HFault   *HFault   `json:"hfault,omitempty"`
+	WaitFail bool      `json:"waitfail,omitempty"`
+	Intr     *Intruder `json:"intruder,omitempty"`
+	// op "test" (C12 only: helm test, action.ReleaseTesting): the --filter name=... / !name=... lists
+	TestInclude []string `json:"test_include,omitempty"`
+	TestExclude []string `json:"test_exclude,omitempty"`
 }
 
 type Edit struct {
@@ -164,19 +177,20 @@ type LogCall struct {
 }
 
 type StepObs struct {
-	Outcome  string                       `json:"outcome"` // ok crashed err:<class>
-	ErrText  string                       `json:"err_text,omitempty"`
-	Ledger   []LedgerRow                  `json:"ledger"`
-	Objs     map[string]map[string]string `json:"objs"`
-	Trace    []TEv                        `json:"trace"`
-	Rendered []Res                        `json:"rendered,omitempty"` // manifest in the order Helm rendered it
-	RHooks   []Hook                       `json:"rendered_hooks,omitempty"`
-	MutReqs  int                          `json:"mutating_requests"` // raw count of POST/PUT/PATCH/DELETE that arrived
-	Reqs     int                          `json:"requests"`
-	SWrites  int                          `json:"storage_writes"` // raw count of driver Create/Update/Delete calls
-	Kept     string                       `json:"kept,omitempty"`
-	LogCalls []LogCall                    `json:"log_calls,omitempty"` // hook log fetches (C12)
-	Panic    string                       `json:"panic,omitempty"`
+	Outcome   string                       `json:"outcome"` // ok crashed err:<class>
+	ErrText   string                       `json:"err_text,omitempty"`
+	Ledger    []LedgerRow                  `json:"ledger"`
+	Objs      map[string]map[string]string `json:"objs"`
+	Trace     []TEv                        `json:"trace"`
+	Rendered  []Res                        `json:"rendered,omitempty"` // manifest in the order Helm rendered it
+	RHooks    []Hook                       `json:"rendered_hooks,omitempty"`
+	MutReqs   int                          `json:"mutating_requests"` // raw count of POST/PUT/PATCH/DELETE that arrived
+	Reqs      int                          `json:"requests"`
+	SWrites   int                          `json:"storage_writes"` // raw count of driver Create/Update/Delete calls
+	IntrFired bool                         `json:"intruder_fired,omitempty"`
+	Kept      string                       `json:"kept,omitempty"`
+	LogCalls  []LogCall                    `json:"log_calls,omitempty"` // hook log fetches (C12)
+	Panic     string                       `json:"panic,omitempty"`
 }
 
 type Obs struct {
@@ -479,6 +493,7 @@ func (c *hclient) DeleteWithPropagationPolicy(rs kube.ResourceList, pol metav1.D
 	c.call("delete", func() { res, errs = c.Client.DeleteWithPropagationPolicy(rs, pol) })
 	return
 }
+
 // GetPodList / OutputContainerLogsForPodList (kube.InterfaceLogs, used by outputLogsByPolicy only): recorded, answered
 // with an empty pod list; nothing is sent to the simulated server.
 func (c *hclient) GetPodList(namespace string, lo metav1.ListOptions) (*corev1.PodList, error) {
@@ -661,6 +676,12 @@ func (r *Runner) RunOp(op *Op) (so StepObs) {
 	if op.KFault != nil {
 		r.Srv.SetFault(&sim.Fault{Verb: op.KFault.Verb, Key: op.KFault.Key})
 	}
+	var intr *sim.Intruder
+	if op.Intr != nil {
+		intr = &sim.Intruder{Key: op.Intr.Obj.Key(), When: op.Intr.When, Nth: op.Intr.Nth, NS: op.Intr.Obj.Namespace,
+			Kind: op.Intr.Obj.Kind, Name: op.Intr.Obj.Name, Fields: op.Intr.Obj.Fields}
+		r.Srv.SetIntruder(intr)
+	}
 	req0, mreq0 := r.Srv.Requests(), r.Srv.MutatingRequests()
 	cfg, _ := r.config(p, op)
 	var err error
@@ -699,6 +720,16 @@ func (r *Runner) RunOp(op *Op) (so StepObs) {
 			a.WaitForJobs = f.WaitForJobs
 			a.Timeout, a.WaitStrategy = time.Second, kube.HookOnlyStrategy
 			err = a.Run(RelName)
+		case "test":
+			a := action.NewReleaseTesting(cfg)
+			a.Namespace, a.Timeout = RelNS, time.Second
+			if len(op.TestInclude) > 0 {
+				a.Filters[action.IncludeNameFilter] = op.TestInclude
+			}
+			if len(op.TestExclude) > 0 {
+				a.Filters[action.ExcludeNameFilter] = op.TestExclude
+			}
+			_, err = a.Run(RelName)
 		case "uninstall":
 			a := action.NewUninstall(cfg)
 			a.KeepHistory, a.DisableHooks, a.DryRun = f.KeepHistory, f.NoHooks, f.IsDry()
@@ -711,6 +742,10 @@ func (r *Runner) RunOp(op *Op) (so StepObs) {
 		}
 	}()
 	r.Srv.SetFault(nil)
+	if intr != nil {
+		r.Srv.SetIntruder(nil)
+		so.IntrFired = intr.Fired
+	}
 	so.Outcome = classify(err)
 	if err != nil {
 		so.ErrText = err.Error()
